@@ -517,15 +517,22 @@ def _r3(ctx):
             for e in pl['p']:
                 if isinstance(e, dict) and e.get('n') == OLD and e.get('of', '').startswith('basis::StandardBasis'):
                     n += 1
-                    rep.check(body is sb_set, 'R3', 'old-has-single-writer:%s' % body.path, where(body, bi),
-                              'only set_value assigns old', 'StandardBasis.old is also assigned in %s' % body.path)
+                    from .common import direct_sampler
+                    ds = direct_sampler(ctx) if body is sb_samp else None
+                    rep.check(body is sb_set or (ds is not None and ds['ok'] and ('self.' + OLD) in ds.get('undo', [])),
+                              'R3', 'old-has-single-writer:%s' % body.path, where(body, bi),
+                              'only set_value assigns old (or a set_sampled that captures and writes itself: %s)'
+                              % (ds['why'][:160] if ds else 'n/a'),
+                              'StandardBasis.old is also assigned in %s%s' % (body.path, ('; ' + ds['why']) if ds else ''))
     rep.floor('R3', 'writes to StandardBasis.old', n, 1)
     # set_sampled: exactly one set_value, no loop
     css = CFG(sb_samp)
     sv = [(bi, t) for bi, t in sb_samp.calls() if is_trait_call(t, 'Basis', 'set_value')]
-    rep.check(len(sv) == 1 and not css.loops(), 'R3', 'set_sampled-sets-once', where(sb_samp),
-              'one set_value, loop-free', 'set_sampled calls set_value %d times / contains a loop: old may go stale'
-              % len(sv))
+    from .common import direct_sampler
+    ds = direct_sampler(ctx)
+    rep.check((len(sv) == 1 and not css.loops()) or (ds is not None and ds['ok']), 'R3', 'set_sampled-sets-once', where(sb_samp),
+              'one set_value, loop-free' if sv else (ds['why'] if ds else ''),
+              'set_sampled calls set_value %d times / contains a loop: old may go stale%s' % (len(sv), ('; ' + ds['why']) if ds else ''))
 
 
 def thorough(ctx):
